@@ -131,7 +131,7 @@ def run(facts, tr, rep):
         if kind != "plain":
             continue
         edges = dominating_edges(tr, b, a.into_bb)
-        on_none = any(e["kind"] == "enum" and e["label"] == "None" and mentions_field(tr, e["node"], "max_wait_duration") for e in edges)
+        on_none = any(optionlike_role(facts, b, e) == "none" and mentions_field(tr, e["node"], "max_wait_duration") for e in edges)
         rep.ob("C07.BOUNDED-WAIT", skey(b, "plain-acquire@L%d" % a.line), on_none, g.where(a.into_bb),
                "the permit is awaited without a deadline only when max_wait_duration is None" if on_none else
                "the permit is awaited without a deadline on a path where max_wait_duration may be configured: such a caller is "
